@@ -1,4 +1,5 @@
 import FemtoVerif.Driver.C11
+import FemtoVerif.Driver.Gc
 open Lean
 
 namespace Femto.Driver
@@ -8,6 +9,12 @@ def dispatch (op : String) (j : Json) : Except String Json :=
   | "c11.views" => C11.views j
   | "c11.filter" => C11.filter j
   | "c11.split" => C11.split j
+  | "ctl.run" => GcD.ctlRun j
+  | "gc.session" => GcD.gcSession j
+  | "gc.write" => GcD.gcWrite j
+  | "gc.fmt" => GcD.gcFmt j
+  | "ctl.repr" => GcD.ctlRepr j
+  | "c01.check" => GcD.c01Check j
   | _ => .error s!"unknown op {op}"
 
 def handleLine (line : String) : String :=
